@@ -168,11 +168,13 @@ func (ent *entityNode) innerRef(name string) *schema_j5pb.Field {
 func (ent *entityNode) findStatus(end string) (string, bool) {
 	for _, status := range ent.Schema.Status {
 		if status.Name == end {
-			// the status enum uses the option name as written (see enumBuilder.addValue)
-			return fmt.Sprintf("%s_STATUS_%s",
-				strcase.ToScreamingSnake(ent.Schema.Name),
-				status.Name,
-			), true
+			// the status enum uses the option name as written, and adds the
+			// prefix unless the name already carries it (see enumBuilder.addValue)
+			prefix := fmt.Sprintf("%s_STATUS_", strcase.ToScreamingSnake(ent.Schema.Name))
+			if strings.HasPrefix(status.Name, prefix) {
+				return status.Name, true
+			}
+			return prefix + status.Name, true
 		}
 	}
 	return "", false
